@@ -6,6 +6,7 @@ Answer: `c <constraint values>` then `i <interactions>` (`f1,f2,..:mult` each).
 -/
 import P3R.Model.AluAir
 import P3R.Model.AluSchedule
+import P3R.Model.NpoLanes
 import P3R.Model.Field
 
 open P3R
@@ -69,6 +70,17 @@ def handle (line : String) : List String :=
     | _ => ["bad-op"]
   | [hd, vals] =>
     match (hd.trimAscii.toString.splitOn " ").filter (· ≠ "") with
+    | ["lanemat", lanes, w] =>
+      -- `lanemat <lanes> <w> | <w values per op>`: the main trace of a lane-packed NPO table
+      -- (Model/NpoLanes.laneMatrix, theorems Props/C10Lanes), one `r <cells>` line per row
+      match lanes.toNat?, w.toNat? with
+      | some lanes, some w =>
+        if lanes == 0 || w == 0 then ["bad-op"] else
+        let flat := parseVec vals
+        let ops := (List.range (flat.length / w)).map fun i => (flat.drop (i * w)).take w
+        let m := NpoLanes.laneMatrix lanes w ops
+        s!"h {m.length}" :: m.map fun r => s!"r {showVec r}"
+      | _, _ => ["bad-op"]
     | ["sched", lanes, kmax] =>
       match lanes.toNat?, kmax.toNat? with
       | some lanes, some kmax => if lanes == 0 || kmax < 2 then ["bad-op"] else handleSched lanes kmax (parseVec vals)
